@@ -365,7 +365,9 @@ class Holder:
 
 
 CYCLE_ROUTES = ('metadata', 'metadata-childless', 'metadata-nested-childless', 'dict-key', 'entries', 'defaultdict-factory', 'defaultdict-factory-empty', 'original-keys',
-                'deque-maxlen-holder', 'ordereddict-key-nested', 'namedtuple-under-custom')
+                'deque-maxlen-holder', 'ordereddict-key-nested', 'namedtuple-under-custom',
+                # one payload object held by SEVERAL nodes of the treespec (each node owns a reference: the collector must be told about every one)
+                'shared-metadata-two-nodes', 'namedtuple-class-two-nodes', 'namedtuple-class-five-nodes', 'compose-two-leaves', 'compose-thrice', 'from-collection-twice')
 
 
 def cycle_case(sink, seed, idx):  # noqa: C901
@@ -378,6 +380,7 @@ def cycle_case(sink, seed, idx):  # noqa: C901
     ns = ''
     Loc = None
     fac = None
+    pre = None
     if route == 'metadata':
         tree = [U.CSeq([U.Leaf(1)], meta=h), 2]
     elif route == 'metadata-childless':
@@ -403,9 +406,33 @@ def cycle_case(sink, seed, idx):  # noqa: C901
         tree = (deque([U.CSeq([], meta=h)], maxlen=3), deque(maxlen=2))
     elif route == 'namedtuple-under-custom':
         tree = U.CMap([U.Point(U.CSeq([], meta=h), None)], meta=h, names=['p'])
+    elif route == 'shared-metadata-two-nodes':
+        class Loc(U.CBase):
+            __slots__ = ()
+
+        ns = f'cyc{idx}'
+        optree.register_pytree_node(Loc, lambda o: (tuple(o.kids), h, None), lambda m, c: Loc(c), namespace=ns)  # the very same metadata object for every node
+        tree = [Loc([U.Leaf(1)]), {'k': Loc([])}, Loc([U.Leaf(2), U.Leaf(3)])]
+    elif route in ('namedtuple-class-two-nodes', 'namedtuple-class-five-nodes'):
+        NT = __import__('collections').namedtuple(f'NTcyc{idx}', ['a', 'b'])
+        NT.holder = h  # class -> holder -> treespec -> class
+        n_inst = 2 if route.endswith('two-nodes') else 5
+        tree = [NT(U.Leaf(i), None) for i in range(n_inst)]
+        del NT
+    elif route in ('compose-two-leaves', 'compose-thrice', 'from-collection-twice'):
+        inner = optree.tree_structure(U.CSeq([U.Leaf(0)], meta=h))
+        if route == 'compose-two-leaves':
+            pre = optree.tree_structure([0, (0, 0)]).compose(inner)
+        elif route == 'compose-thrice':
+            pre = optree.tree_structure((0, 0)).compose(optree.tree_structure([0, 0])).compose(inner)
+        else:
+            pre = optree.treespec_from_collection([inner, inner, inner])
+        del inner
+        tree = None
     else:
         tree = {h: 1, 'zz': 2}
-    spec = optree.tree_structure(tree, namespace=ns)
+    spec = pre if tree is None else optree.tree_structure(tree, namespace=ns)
+    pre = None
     h.ref = spec  # close the cycle through the treespec's payload
     ws = weakref.ref(sentinel)
     wh = weakref.ref(h)
